@@ -627,6 +627,147 @@ example : ∀ over : Bool, (match appendInto DT (fileOf {} "u" exF) exR ["a"] ov
     | .ok f => validFile DT {} f && (f.at ["r", "a", "new", "newdeep"]).isSome && (f.at ["r", "a", "deepF"]).isSome
     | .error _ => false) = true := by decide
 
+theorem getLast_snoc' : ∀ (l : List String) (a m : String) (h : a :: (l ++ [m]) ≠ []), (a :: (l ++ [m])).getLast h = m
+  | [], a, m, h => rfl
+  | x :: l, a, m, h => by
+    simp only [List.cons_append, List.getLast_cons_cons]
+    exact getLast_snoc' l x m (by simp)
+
+/-- the root of the file after `_append_root_metadata` still has only valid bodies and is a well-formed rooted tree
+    (factored out of the targeted validity theorems) -/
+theorem withBody_ok (over : Bool) (F : Tree) (ri : NodeInfo) (body' : List (String × Obj))
+    (hFok : F.allInfo infoOK = true) (hF : F.rootedWF CT DT = true) (hmdname : "metadatabundle" ∉ names F.kids)
+    (hmdR : (mdEntries ri).all (fun kv => mdEntryOK kv.2) = true)
+    (hmd : mdBody over F.info.body (mdEntries ri) = .ok body') :
+    (withBody F body').allInfo infoOK = true ∧ (withBody F body').rootedWF CT DT = true := by
+  have hFroot : F.info.gtype = "root" := by
+    simp only [Tree.rootedWF, Bool.and_eq_true, beq_iff_eq] at hF; exact hF.2
+  constructor
+  · cases F with
+    | mk i k =>
+      simp only [Tree.allInfo, Bool.and_eq_true] at hFok
+      simp only [withBody, Tree.info_mk, Tree.kids_mk, Tree.allInfo, Bool.and_eq_true]
+      refine ⟨?_, hFok.2⟩
+      simp only [Tree.info_mk] at hFroot hmd
+      have := hFok.1
+      simp only [infoOK, hFroot] at this ⊢
+      exact mdBody_ok over _ _ _ this hmdR hmd
+  · simp only [Tree.rootedWF, Bool.and_eq_true, beq_iff_eq] at hF ⊢
+    obtain ⟨hw1, _⟩ := rootMd_encode over F ri body' hF.1.1 hmdname hmd
+    exact ⟨⟨hw1, by cases F; exact hF.1.2⟩, by cases F; exact hF.2⟩
+
+/-- C05 after a targeted append of a NEW node ALONE (`C09_target_new_single`, tree=False, parent below the root): the file
+    is still a well-formed EMD 1.0 file -/
+theorem C05_target_new_single (sess : Session) (over : Bool) (f : Obj) (F Rt P D : Tree) (body' : List (String × Obj))
+    (n0 : String) (q0 : List String) (m : String)
+    (hv : validFile DT sess f = true)
+    (hFok : F.allInfo infoOK = true) (hRok : Rt.allInfo infoOK = true)
+    (hmdR : (mdEntries Rt.info).all (fun kv => mdEntryOK kv.2) = true)
+    (hF : F.rootedWF CT DT = true) (hR : Rt.rootedWF CT DT = true) (hname : Rt.name = F.name)
+    (hf : alookup F.name f.kids = some (encode F)) (hroot : (rootGroups f).contains F.name = true)
+    (hmdname : "metadatabundle" ∉ names F.kids)
+    (hmd : mdBody over F.info.body (mdEntries Rt.info) = .ok body')
+    (hP : (withBody F body').at (n0 :: q0) = some P) (hD : Rt.at ((n0 :: q0) ++ [m]) = some D)
+    (hnew : m ∉ names P.kids) (hbody : m ∉ akeys P.info.body) :
+    ∃ f', appendInto DT f Rt ((n0 :: q0) ++ [m]) over .no none = .ok f' ∧ validFile DT sess f' = true := by
+  have hap := C09_target_new_single over f F Rt P D body' (n0 :: q0) m hF hR hname hf hroot hmdname hmd hP hD hnew hbody
+  refine ⟨_, hap, ?_⟩
+  obtain ⟨hF1ok, hF1r⟩ := withBody_ok over F Rt.info body' hFok hF hmdname hmdR hmd
+  have hF1w : (withBody F body').wf CT DT = true := by
+    simp only [Tree.rootedWF, Bool.and_eq_true] at hF1r; exact hF1r.1.1
+  have hRw : Rt.wf CT DT = true := by
+    simp only [Tree.rootedWF, Bool.and_eq_true] at hR; exact hR.1.1
+  obtain ⟨hPw, hPd⟩ := wf_at (n0 :: q0) (withBody F body') P hF1w hP
+  obtain ⟨hDw, hDd⟩ := wf_at ((n0 :: q0) ++ [m]) Rt D hRw hD
+  have hDn : D.name = m := by
+    cases hq : (n0 :: q0) ++ [m] with
+    | nil => simp at hq
+    | cons a b =>
+      rw [hq] at hD
+      have := at_name b Rt D a hD
+      rw [this]
+      simp only [← hq]
+      exact getLast_snoc' q0 n0 m _
+  have hPok : P.allInfo infoOK = true := allInfo_at infoOK (n0 :: q0) (withBody F body') P hF1ok hP
+  have hDok := allInfo_kids infoOK D (allInfo_at infoOK _ Rt D hRok hD)
+  have hD1ok : (Tree.mk D.info []).allInfo infoOK = true := by
+    simp only [Tree.allInfo, allInfoKids, Bool.and_true]; exact hDok.2
+  have hall := allInfo_replaceAt infoOK (n0 :: q0) (withBody F body') (P.addKid (.mk D.info [])) hF1ok
+    (allInfo_addKid infoOK P _ hPok hD1ok)
+  -- well-formedness of the enlarged parent
+  have hD1w : (Tree.mk D.info []).wf CT DT = true := by
+    simp only [Tree.wf, kidsWF, Bool.and_true]; exact Tree.wf_info hDw
+  have hP'w : (P.addKid (.mk D.info [])).wf CT DT = true := by
+    cases P with
+    | mk pi pk =>
+      have hk := Tree.wf_kids hPw
+      simp only [Tree.info_mk, Tree.kids_mk] at hk hnew hbody
+      simp only [Tree.addKid, Tree.info_mk, Tree.kids_mk, Tree.wf, Bool.and_eq_true]
+      refine ⟨Tree.wf_info hPw, kidsWF_append (ct := CT) (dt := DT) (.mk D.info []) pk _ hk ?_ ?_ hD1w ?_⟩
+      · show D.info.name ∉ akeys pi.body
+        have : D.info.name = m := hDn
+        rw [this]; exact hbody
+      · show D.info.name ∉ names pk
+        have : D.info.name = m := hDn
+        rw [this]; exact hnew
+      · exact hDd (by simp)
+  have hwf := replaceAt_wf (ct := CT) (dt := DT) (n0 :: q0) (withBody F body') P (P.addKid (.mk D.info [])) hF1w hP hP'w
+    (by cases P; rfl) (fun h => by cases P; exact hPd h)
+  exact C05_replace_root sess f F.name _ hv (rootedWF_replaceAt (withBody F body') _ n0 q0 hF1r hwf) hall
+
+/-- C05 after a targeted append of what is BELOW a new node (`C09_target_new_below`, tree=None, parent below the root): the
+    children of the runtime node become children of the file's parent node, and the file is still well-formed EMD 1.0 -/
+theorem C05_target_new_below (sess : Session) (over : Bool) (f : Obj) (F Rt P D : Tree) (body' : List (String × Obj))
+    (n0 : String) (q0 : List String) (m : String)
+    (hv : validFile DT sess f = true)
+    (hFok : F.allInfo infoOK = true) (hRok : Rt.allInfo infoOK = true)
+    (hmdR : (mdEntries Rt.info).all (fun kv => mdEntryOK kv.2) = true)
+    (hF : F.rootedWF CT DT = true) (hR : Rt.rootedWF CT DT = true) (hname : Rt.name = F.name)
+    (hf : alookup F.name f.kids = some (encode F)) (hroot : (rootGroups f).contains F.name = true)
+    (hmdname : "metadatabundle" ∉ names F.kids)
+    (hmd : mdBody over F.info.body (mdEntries Rt.info) = .ok body')
+    (hP : (withBody F body').at (n0 :: q0) = some P) (hD : Rt.at ((n0 :: q0) ++ [m]) = some D)
+    (hnew : m ∉ names P.kids) (hbody : m ∉ akeys P.info.body)
+    (hfresh : ∀ k ∈ D.kids, k.name ∉ akeys P.info.body ++ names P.kids) :
+    ∃ f', appendInto DT f Rt ((n0 :: q0) ++ [m]) over .below none = .ok f' ∧ validFile DT sess f' = true := by
+  have hap := C09_target_new_below over f F Rt P D body' (n0 :: q0) m hF hR hname hf hroot hmdname hmd hP hD hnew hbody hfresh
+  refine ⟨_, hap, ?_⟩
+  obtain ⟨hF1ok, hF1r⟩ := withBody_ok over F Rt.info body' hFok hF hmdname hmdR hmd
+  have hF1w : (withBody F body').wf CT DT = true := by
+    simp only [Tree.rootedWF, Bool.and_eq_true] at hF1r; exact hF1r.1.1
+  have hRw : Rt.wf CT DT = true := by
+    simp only [Tree.rootedWF, Bool.and_eq_true] at hR; exact hR.1.1
+  obtain ⟨hPw, hPd⟩ := wf_at (n0 :: q0) (withBody F body') P hF1w hP
+  obtain ⟨hDw, _⟩ := wf_at ((n0 :: q0) ++ [m]) Rt D hRw hD
+  have hDk : kidsWF CT DT (akeys P.info.body ++ names P.kids) D.kids = true :=
+    kidsWF_retake' D.kids _ _ (Tree.wf_kids hDw) hfresh
+  have hP'w : (Tree.mk P.info (P.kids ++ D.kids)).wf CT DT = true := by
+    cases P with
+    | mk pi pk =>
+      simp only [Tree.info_mk, Tree.kids_mk] at hDk ⊢
+      have hk := Tree.wf_kids hPw
+      simp only [Tree.info_mk, Tree.kids_mk] at hk
+      simp only [Tree.wf, Bool.and_eq_true]
+      exact ⟨Tree.wf_info hPw, kidsWF_append_list pk D.kids _ hk hDk⟩
+  have hwf := replaceAt_wf (ct := CT) (dt := DT) (n0 :: q0) (withBody F body') P (.mk P.info (P.kids ++ D.kids)) hF1w hP hP'w
+    (by cases P; rfl) (fun h => by cases P; exact hPd h)
+  have hPok := allInfo_kids infoOK P (allInfo_at infoOK (n0 :: q0) (withBody F body') P hF1ok hP)
+  have hDok := allInfo_kids infoOK D (allInfo_at infoOK _ Rt D hRok hD)
+  have hP'ok : (Tree.mk P.info (P.kids ++ D.kids)).allInfo infoOK = true := by
+    simp only [Tree.allInfo, allInfoKids_append, Bool.and_eq_true]
+    exact ⟨hPok.2, hPok.1, hDok.1⟩
+  have hall := allInfo_replaceAt infoOK (n0 :: q0) (withBody F body') _ hF1ok hP'ok
+  exact C05_replace_root sess f F.name _ hv (rootedWF_replaceAt (withBody F body') _ n0 q0 hF1r hwf) hall
+
+-- model runs for `C05_target_new_single` / `C05_target_new_below` on the example pair (`a/new` is in the runtime tree only, its
+-- parent `a` is below the root; hypotheses: the non-vacuity examples of C09): the file after each save validates
+example : ∀ over : Bool, (match appendInto DT (fileOf {} "u" exF) exR (["a"] ++ ["new"]) over .no none with
+    | .ok f => validFile DT {} f && (f.at ["r", "a", "new"]).isSome && (f.at ["r", "a", "new", "newdeep"]).isNone
+    | .error _ => false) = true := by decide
+example : ∀ over : Bool, (match appendInto DT (fileOf {} "u" exF) exR (["a"] ++ ["new"]) over .below none with
+    | .ok f => validFile DT {} f && (f.at ["r", "a", "newdeep"]).isSome && (f.at ["r", "a", "new"]).isNone
+    | .error _ => false) = true := by decide
+
 /-! ### per-class body validity: what `Array.to_h5` writes is a valid Array body -/
 
 theorem dim_prefix (n : Nat) : ((autoName "dim" n).toList.take 3 == ['d', 'i', 'm']) = true := by
